@@ -64,7 +64,7 @@ def number(r, envelope=False, special=0.12):
     if r.random() < 0.05: s += r.choice(["e2", "e-2", "E1", "e+1"])
     return s
 
-BAD_NUMBERS = ["abc", "1.2.3", "1,5", "--1", "1e", "e5", "0x", "0x1", "1__0", "_1", "1_", "infi", "+nan", "-nan", "1e999", "-1e400", "１", "1O", "..", "+", "-", "1 e5"]
+BAD_NUMBERS = ["abc", "1.2.3", "1,5", "--1", "1e", "e5", "0x", "0x1", "1__0", "_1", "1_", "infi", "+nan", "-nan", "1e999", "-1e400", "１", "1O", "..", "+", "+-1", "1e5x", "1 e5"]
 
 # ---------------------------------------------------------------------------
 # abstract files
@@ -246,3 +246,83 @@ def world(r, envelope=False, fancy=0.25, layout="2006/01/02", cycles=0.0, pathy=
 
 def element_names(w):
     return w["meta"]["basics"] + w["meta"]["recipes"]
+
+# ---------------------------------------------------------------------------
+# abstract files in the shape of coq/theories/Model/Syntax.v: every item carries
+# its explicit layout pieces, so the model can render it and state what the
+# parser must report
+# ---------------------------------------------------------------------------
+TRIMCH = ["\t", " ", ":", "\"", "-"]
+
+def s_pre(r):
+    p = r.choice([" ", "  ", "    ", "\t", "\t\t", " \t", "-", "- ", "  - ", "\t- ", "  -  "])
+    if r.random() < 0.2: p += "\""
+    if r.random() < 0.03: p += r.choice(TRIMCH)
+    return p
+
+def s_mid(r):
+    m = r.choice([" ", "  ", "\t", ": ", ":  ", ":\t", " : ", "\": ", "\" ", " \"", ": \"", " :\""])
+    return m
+
+def s_post(r):
+    return r.choice(["", "", "", " ", "  ", "\t", "\"", "\" ", " -", ":"])
+
+def s_name(r, fancy=0.35):
+    n = name(r, fancy)
+    # ends outside the trim set (tab space LF : " -), does not start with '#', does not end in CR
+    while n and (n[0] in "\t \n:\"-#" or n[-1] in "\t \n:\"-\r"):
+        n = n.strip("\t \n:\"-\r#")
+    return n or "x"
+
+def syntax_items(r, n_records=None, bad=0.0, pre_heading_junk=0.1, fancy=0.35, heading=None):
+    """list of (kind, fields, crlf)"""
+    items = []
+    crlf_file = r.random() < 0.15
+    def add(kind, *fields):
+        items.append((kind, [f for f in fields], crlf_file if r.random() < 0.9 else not crlf_file))
+    def filler():
+        while r.random() < 0.25:
+            k = r.random()
+            if k < 0.4: add("blank", r.choice(["", "", " ", "\t", "  ", ":", "-", "\"\"", "---", " - "]))
+            else: add("comment", r.choice(["", " "]) + word(r) + " " + word(r))
+    if r.random() < pre_heading_junk:
+        add("entry", s_pre(r), s_name(r, fancy), s_mid(r), number(r), s_post(r))   # before any heading: ignored
+    nrec = n_records if n_records is not None else r.randint(0, 4)
+    for i in range(nrec):
+        filler()
+        add("heading", heading(r, i) if heading else s_name(r, fancy), r.choice(["", ":", ":", " :", ": ", ":\t"]))
+        for _ in range(r.choice([0, 1, 2, 3, 5])):
+            filler()
+            x = r.random()
+            if x < bad / 2:
+                t = r.choice([word(r), s_name(r, 0).replace(" ", "").replace("\t", "") or "q", "a:1", "x=1"])
+                while t and (t[0] in "\t \n:\"-#" or t[-1] in "\t \n:\"-\r"): t = t.strip("\t \n:\"-\r#")
+                add("badnosep", s_pre(r), t or "zz")
+            elif x < bad:
+                add("badnum", s_pre(r), s_name(r, fancy), s_mid(r), r.choice(BAD_NUMBERS).replace(" ", ""), s_post(r))
+            elif x < bad + 0.12:
+                key = r.choice([None, word(r)])
+                txt = word(r) + " " + word(r)
+                add("note", s_pre(r).replace("\"", ""), "# " + (key + ": " if key else "") + txt)
+            else:
+                add("entry", s_pre(r), s_name(r, fancy), s_mid(r), number(r), s_post(r))
+    filler()
+    return items, (r.random() < 0.85)
+
+def syntax_render(items, final_newline=True):
+    out = b""
+    for i, (kind, f, crlf) in enumerate(items):
+        line = {"blank": lambda: f[0], "comment": lambda: "#" + f[0], "heading": lambda: f[0] + f[1],
+                "entry": lambda: "".join(f), "note": lambda: f[0] + f[1], "badnosep": lambda: f[0] + f[1],
+                "badnum": lambda: "".join(f)}[kind]()
+        out += line.encode("utf-8", "surrogateescape")
+        if i < len(items) - 1 or final_newline: out += b"\r\n" if crlf else b"\n"
+    return out
+
+def syntax_pairs(items, final_newline=True):
+    """request pairs for the model driver's op=syntax"""
+    pairs = []
+    for kind, f, crlf in items:
+        pairs.append((kind + ("+" if crlf else ""), "\n".join(f).encode("utf-8", "surrogateescape")))
+    if not final_newline: pairs.append(("nofinal", True))
+    return pairs
